@@ -105,7 +105,7 @@ func c13(c *Ctx) {
 		return
 	}
 	kinds := []string{"close-idle", "close-early", "close-queued", "close-queued", "close-outstanding", "rst-outstanding",
-		"close-afterresp", "close-timer", "close-timer", "notmo", "mixed", "burst", "flood-close", "flood-close", "reissue-close", "reissue-close", "garbage-close", "nohandler", "nohandler"}
+		"close-afterresp", "close-timer", "close-timer", "notmo", "mixed", "burst", "flood-close", "flood-close", "reissue-close", "reissue-close", "garbage-close", "nohandler", "nohandler", "bodylen"}
 	cfgs := []DelayCfg{{Seed: int(c.Seed), US: 0, P: 30}, {Seed: int(c.Seed) + 1, US: 200, P: 30}, {Seed: int(c.Seed) + 2, US: 1000, P: 15},
 		{Seed: int(c.Seed) + 3, US: 3000, P: 12}, {Seed: int(c.Seed) + 4, US: 0, P: 60}, {Seed: int(c.Seed) + 5, US: 500, P: 20},
 		// user callbacks (OnRead/OnWrite/OnJoin/OnLeaveEvent) that sleep up to 20 / 5 ms, with and without the overlay's delays
